@@ -1,6 +1,7 @@
 package c15
 
 import (
+	"encoding/base64"
 	"fmt"
 	"strings"
 
@@ -203,4 +204,53 @@ func genPlainDoc(r *rng.R, id int) Doc {
 		fmt.Fprintf(&b, `<p style="margin-left:%drem;text-indent:%dex;width:%dem">%s</p>`, r.Range(0, 3), r.Range(0, 4), r.Range(8, 20), text(r, r.Range(3, 15)))
 	}
 	return Doc{ID: id, Seed: seed, HTML: b.String(), Feats: []string{"initial-font", "no-oof,no-grid"}}
+}
+
+// genFormDoc: elements whose rendering comes from UA-stylesheet rules computed from ATTRIBUTES
+// (`input[value]::before{content:attr(value)}`, anchors from id/name, lang, links from href): the
+// declared values of those rules live in the process-wide UA stylesheet and must not be changed by
+// a render.
+func genFormDoc(r *rng.R, id int) Doc {
+	seed := r.Seed()
+	var b strings.Builder
+	b.WriteString(`<style>@page{size:400px 300px;margin:10px}abbr[title]::after{content:" (" attr(title) ")"}img::after{content:attr(alt)}</style>`)
+	for i, n := 0, r.Range(2, 6); i < n; i++ {
+		switch r.Intn(5) {
+		case 0, 1:
+			fmt.Fprintf(&b, `<p>%s <input value="%s-%d"> <input type="%s" value="%s"></p>`, text(r, 2), words[r.Intn(len(words))], r.Range(0, 999), rng.Pick(r, "text", "submit", "button", "password"), text(r, 2))
+		case 2:
+			fmt.Fprintf(&b, `<p><abbr title="%s">%s</abbr> <a name="n%d" href="#n%d">%s</a></p>`, text(r, 2), words[r.Intn(len(words))], r.Range(0, 9), r.Range(0, 9), text(r, 1))
+		case 3:
+			fmt.Fprintf(&b, `<p><img alt="%s" src="missing-%d.png"> <span lang="%s" id="%s%d">%s</span></p>`, text(r, 2), r.Range(0, 99), rng.Pick(r, "en", "fr", "de"), words[r.Intn(len(words))], i, text(r, 2))
+		case 4:
+			fmt.Fprintf(&b, `<p><input> <input value=""> <textarea>%s</textarea> <button>%s</button></p>`, text(r, 2), text(r, 1))
+		}
+	}
+	return Doc{ID: id, Seed: seed, HTML: b.String(), Feats: []string{"ua-attr-rules", "no-oof,no-grid"}}
+}
+
+// genAttachDoc: 3-6 DISTINCT attachments (data: URIs) as <a rel=attachment> links and
+// <link rel=attachment>: Document.Write embeds them (EmbedFile, SetAttachments) — in document order.
+func genAttachDoc(r *rng.R, id int) Doc {
+	seed := r.Seed()
+	var head, body strings.Builder
+	head.WriteString(`<style>@page{size:400px 200px;margin:10px}</style>`)
+	uri := func() string {
+		return "data:text/plain;base64," + base64.StdEncoding.EncodeToString([]byte(fmt.Sprintf("attachment %d %s", r.Range(0, 99999), text(r, 3))))
+	}
+	for i, n := 0, r.Range(0, 3); i < n; i++ {
+		fmt.Fprintf(&head, `<link rel="attachment" href="%s" title="meta %d">`, uri(), i)
+	}
+	var uris []string
+	for i, n := 0, r.Range(3, 6); i < n; i++ {
+		uris = append(uris, uri())
+	}
+	for i, u := range uris {
+		fmt.Fprintf(&body, `<p>%s <a rel="attachment" href="%s">file %d</a></p>`, text(r, r.Range(1, 6)), u, i)
+		if r.P(1, 3) { // the same target again
+			fmt.Fprintf(&body, `<p><a rel="attachment" href="%s">again</a></p>`, uris[r.Intn(i+1)])
+		}
+	}
+	html := "<!DOCTYPE html><html><head>" + head.String() + "</head><body>" + body.String() + "</body></html>"
+	return Doc{ID: id, Seed: seed, HTML: html, Feats: []string{"attachments", "no-oof,no-grid"}}
 }
